@@ -290,6 +290,26 @@ def rule_fixpoints(ctx, rep, config="c-lib"):
                     else:
                         rep.violation("R10", key, "the fixpoint loop of %s resets and sets `%s' but does not test it: the iteration stops although this property still changes" % (fn, fl),
                                       where=t.where())
+        # accumulation: inside the loop a change flag is only reset (constant), set (constant) or OR-ed with itself
+        for L in f.loops():
+            for bn in L["body"]:
+                for i in f.bmap[bn].insts:
+                    v = i.d.get("var")
+                    if not v or "chang" not in v or i.op in ("phi", "alloca"):
+                        continue
+                    n += 1
+                    key = "%s/%s-accumulates#%d" % (fn, v, n)
+                    ok = False
+                    if i.op == "or":
+                        for o in i.ops:
+                            oi = f.inst(strip_int_casts(f, o))
+                            if oi is not None and oi.d.get("var") == v:
+                                ok = True
+                    if ok:
+                        rep.ok("R10", key, nontrivial=True)
+                    else:
+                        rep.violation("R10", key, "the change flag `%s' is overwritten (not OR-ed) inside the fixpoint loop: a change recorded earlier in the same iteration is "
+                                                  "lost and the iteration can stop before the fixpoint" % v, where=i.where(), witness=[i.where()])
         # old-before-new: `flag |= field ^ new; field = new' order
         for i in f.all_insts():
             if i.op != "xor" or i.ty == "i1":
